@@ -221,7 +221,8 @@ Uncertainty(s) == LET n == ScanNumber(s) IN IF n.ok /\ n.hasUnc THEN StripLead(n
 Digits(ds) == [i \in DOMAIN ds |-> ds[i] + 48]
 Sign(v) == IF v.neg THEN <<45>> ELSE <<>>
 PadLeft(s, w) == IF Len(s) >= w THEN s ELSE [i \in 1..(w - Len(s)) |-> SPC] \o s
-NeedsQuote(v) == v.k = "str" /\ Contains(v.a, SPC) /\ ~(Contains(v.a, SQ) \/ Contains(v.a, DQ))
+(* a string with a blank needs delimiters; so does the empty string (written bare, the next token would be read in its place) *)
+NeedsQuote(v) == v.k = "str" /\ (v.a = <<>> \/ (Contains(v.a, SPC) /\ ~(Contains(v.a, SQ) \/ Contains(v.a, DQ))))
 Quoted(v) == IF NeedsQuote(v) THEN <<SQ>> \o v.a \o <<SQ>> ELSE v.a
 
 IntText(v) == Sign(v) \o Digits(v.a)
@@ -429,7 +430,7 @@ HasBlank(s) == Contains(s, SPC)
 HasQuote(s) == Contains(s, SQ) \/ Contains(s, DQ)
 (* why a string is outside the quantifier of the statement ("" = inside) *)
 StrOutside(s) ==
-  IF s = <<>> THEN "empty-string"
+  IF s = <<>> THEN ""                           \* the empty string is a string CIF expresses ('')
   ELSE IF ~Printable(s) THEN "unprintable"
   ELSE IF s[1] = SPC \/ s[Len(s)] = SPC THEN "outer-blank"
   ELSE IF NumberLike(s) THEN "number-like-string"
